@@ -1,13 +1,13 @@
 (* C14 - SCC, topological order and condensation match their definitions (solvor/scc.py).
    Model: SV.C14.Scc (the code WITH the fix "SCC ignores neighbours outside the given node set").
    Specification: SV.C14.SccSpec (edge / reach / has_cycle over the subgraph induced by the node list).
-   Proved in general (all graphs, all node/neighbour orders, self loops, duplicate edges, outside neighbours):
+   Proved for all graphs, node orders, neighbour orders, self loops, duplicate edges, outside neighbours:
      topological_sort (duplicate-free node list): never out of fuel, order sound, INFEASIBLE iff cycle;
-     strongly_connected_components: never out of fuel / no exception, result is a partition of the node list;
-     condense: correct edges + acyclic GIVEN that the components are the mutual-reachability classes.
-   Not proved in general: components = mutual-reachability classes, sinks first (Tarjan's reachability
-   invariant) - full statements below, covered per run by the kernel-evaluated certificate scc_check
-   (sound: C14_scc_check_sound) on the model's and the implementation's outputs. *)
+     strongly_connected_components (any node list, duplicates allowed): never out of fuel / no exception, the
+       components partition the node list, are exactly the classes of mutual reachability, sinks first;
+     condense: edge iff some original edge joins two different components, acyclic (no hypothesis left);
+     the boolean checkers scc_check / topo_check / cond_check evaluated by the harness are sound, and the Gallina
+       transitive closure they use is sound and complete for the inductive reachability. *)
 From Coq Require Import List Arith Bool.
 From SV Require Import C14.Scc C14.SccSpec C14.Main C14.SccSpecProofs C14.ClosureComplete.
 Import ListNotations.
@@ -55,7 +55,37 @@ Theorem C14_condense : forall g nodes cs,
 Proof. exact condense_thm. Qed.
 Print Assumptions C14_condense.
 
-(* ---------------------------------------------------------------- (4) classes and order: certificate *)
+(* ---------------------------------------------------------------- (4) Tarjan: classes and order *)
+Theorem C14_scc_classes : forall g nodes cs,
+  scc g nodes = Some cs ->
+  forall x y, In x nodes -> In y nodes ->
+    ((exists c, In c cs /\ In x c /\ In y c) <-> (reach g nodes x y /\ reach g nodes y x)).
+Proof. exact scc_classes_holds. Qed.
+Print Assumptions C14_scc_classes.
+
+Theorem C14_scc_order : forall g nodes cs,
+  scc g nodes = Some cs ->
+  forall i j ci cj u w, nth_error cs i = Some ci -> nth_error cs j = Some cj -> i < j ->
+                        In u ci -> In w cj -> ~ edge g nodes u w.
+Proof. exact scc_order_holds. Qed.
+Print Assumptions C14_scc_order.
+
+Theorem C14_scc_spec : forall g nodes, exists cs, scc g nodes = Some cs /\ scc_spec g nodes cs.
+Proof. exact scc_spec_holds. Qed.
+Print Assumptions C14_scc_spec.
+
+Theorem C14_scc_edges_spec : forall n edges,
+  exists cs, scc_edges n edges = Some cs /\ scc_spec (graph_of_edges n edges) (seq 0 n) cs.
+Proof. exact scc_edges_spec. Qed.
+Print Assumptions C14_scc_edges_spec.
+
+Theorem C14_condense_spec : forall g nodes,
+  exists cs succs, scc g nodes = Some cs /\ condense g nodes = Some (cs, succs) /\
+                   scc_spec g nodes cs /\ cond_spec g nodes (cs, succs).
+Proof. exact condense_spec_holds. Qed.
+Print Assumptions C14_condense_spec.
+
+(* ---------------------------------------------------------------- certificates evaluated per run on /repo's outputs *)
 Theorem C14_scc_check_sound : forall g nodes cs, scc_check g nodes cs = true -> scc_spec g nodes cs.
 Proof. exact scc_check_sound. Qed.
 Print Assumptions C14_scc_check_sound.
@@ -76,19 +106,6 @@ Print Assumptions C14_reach_closure_correct.
 Theorem C14_has_cycleb_correct : forall g nodes, has_cycleb g nodes = true <-> has_cycle g nodes.
 Proof. exact has_cycleb_iff. Qed.
 Print Assumptions C14_has_cycleb_correct.
-
-(* full statements not proved in general: Main.scc_classes_full_statement, Main.scc_order_full_statement *)
-Theorem C14_scc_classes_order_partial : forall g nodes cs,
-  scc g nodes = Some cs -> scc_check g nodes cs = true ->
-  is_partition nodes cs /\ scc_classes g nodes cs /\ sinks_first g nodes cs.
-Proof. exact scc_classes_order_partial. Qed.
-Print Assumptions C14_scc_classes_order_partial.
-
-Theorem C14_condense_certified_partial : forall g nodes cs,
-  scc g nodes = Some cs -> scc_check g nodes cs = true ->
-  exists succs, condense g nodes = Some (cs, succs) /\ cond_spec g nodes (cs, succs).
-Proof. exact condense_certified. Qed.
-Print Assumptions C14_condense_certified_partial.
 
 (* ---------------------------------------------------------------- non-vacuity *)
 Definition ex_g : graph := [(0,[1]); (1,[2;1]); (2,[0;3;9]); (3,[4;4]); (4,[3]); (5,[3]); (9,[0])].
